@@ -317,9 +317,9 @@ Proof.
   - (* array value: Array() re-establishes the canonical form (SimplifierSemArr_proofs) *)
     destruct args as [|d rest]; [discriminate Hr|]. cbn [rebuild] in Hr.
     split; [|split].
-    + destruct (r_array_value_sound ex_I it d rest ty r Hk Fo Htc Hr) as (A & _). exact A.
-    + destruct (r_array_value_sound ex_I it d rest ty r Hk Fo Htc Hr) as (_ & B & _). exact B.
-    + intros I _. destruct (r_array_value_sound I it d rest ty r Hk Fo Htc Hr) as (_ & _ & C). exact C.
+    + destruct (r_array_value_sound I0 wfi_I0 it d rest ty r Hk Fo Htc Hr) as (A & _). exact A.
+    + destruct (r_array_value_sound I0 wfi_I0 it d rest ty r Hk Fo Htc Hr) as (_ & B & _). exact B.
+    + intros I HwfI. destruct (r_array_value_sound I HwfI it d rest ty r Hk Fo Htc Hr) as (_ & _ & C). exact C.
   - (* div *) cbn [ok_node] in Hk. destruct args as [|a [|b [|? ?]]]; try discriminate Hk.
     cbn [rebuild] in Hr. inversion Fo as [|? ? Oa Fo']; subst. inversion Fo' as [|? ? Ob _]; subst.
     destruct (tc2 _ _ _ _ Htc) as (ta & tb & Ta & Tb & Hrr).
